@@ -89,8 +89,9 @@ for f in glob.glob("/verif/evidence/*.json"):
 rc, o = sh(["git", "-C", "/repo", "apply", patch])
 res["checks"] = {}
 if rc == 0:
-    for n in range(1, 18):
-        pid = "C%02d" % n
+    only = os.environ.get("X_ONLY", "")
+    want = sorted(set(re.findall(r"C\d\d", stated))) if only == "stated" else ["C%02d" % n for n in range(1, 18)]
+    for pid in want:
         p = subprocess.run(["./check", pid, "--tier", "quick"], cwd="/verif", stdout=subprocess.PIPE, stderr=subprocess.STDOUT, text=True)
         sig = re.search(r"sig=(\S+)", p.stdout)
         res["checks"][pid] = {"rc": p.returncode, "sig": sig.group(1)[:120] if sig and p.returncode == 1 else "", "harness": (re.search(r"HARNESS-ERROR.*", p.stdout) or [""])[0][:160] if p.returncode == 2 else ""}
